@@ -169,10 +169,13 @@ def derive_variants(g):
     g2 = copy.deepcopy(g)
     g2.derives = ["Debug", "Clone", "PartialEq", "Eq"]
     out.append(("eq", g2))
-    if not any(r.kind == "rule" and (r.has("memoize") or r.has("leftrec")) for r in g.rules):
-        g3 = copy.deepcopy(g)
-        g3.derives = ["Debug"]
-        out.append(("debugonly", g3))
+    # derive sets without Clone: grammars with @memoize / @leftrec rules must then be *rejected* by the compiler
+    # (documented restriction); whatever it accepts has to compile
+    g3 = copy.deepcopy(g)
+    g3.derives = ["Debug"]
+    out.append(("debugonly", g3))
+    # the harness check functions need Debug on the checked value: the empty derive set is only used when no rule has a @check
+    if not any(r.kind == "rule" and r.checks() for r in g.rules):
         g4 = copy.deepcopy(g)
         g4.derives = []
         out.append(("none", g4))
@@ -224,6 +227,17 @@ def phaseA_worker(args):
             gpath = os.path.join(rundir, "g%d.ebnf" % uid)
             with open(gpath, "w", encoding="utf-8") as f:
                 f.write(u["text"])
+            # rule-permuted twin (same names, other positions), compiled right before the real grammar in the same
+            # compiler thread: any state surviving a compile (caches keyed by name / position) then corrupts the real one
+            try:
+                import copy
+                tw = copy.copy(u["grammar"])
+                tw.rules = [u["grammar"].rules[0]] + list(reversed(u["grammar"].rules[1:]))
+                if len(tw.rules) > 2:
+                    with open(os.path.join(rundir, "t%d.ebnf" % uid), "w", encoding="utf-8") as f:
+                        f.write(grender.render(tw, None))
+            except Exception:
+                pass
             # budgets from the reference evaluation
             try:
                 types = check_types(u["grammar"])
@@ -416,7 +430,8 @@ def run_profile(profile, seed, tier, opts=None, flavor="dev-hooks", modes=7, sca
     tA = time.time()
     # ---- phase B: real P-gen
     jobs = [("u%d" % u["uid"], os.path.join(rundir, "g%d.ebnf" % u["uid"]), os.path.join(rundir, "g%d.rs" % u["uid"]),
-             u.get("derives", "-"), "vfrt::Ctx" if u["ctx"] else "-") for u in units]
+             u.get("derives", "-"), "vfrt::Ctx" if u["ctx"] else "-",
+             os.path.join(rundir, "t%d.ebnf" % u["uid"]) if os.path.exists(os.path.join(rundir, "t%d.ebnf" % u["uid"])) else "-") for u in units]
     gres = build.run_cgdrv("gen", jobs, rundir)
     pgen_fail = []
     good = []
